@@ -1,6 +1,6 @@
 (* C20 - Admission seats one conforming client per seat and turns the others away.
    Only statements, each closed by [exact]; proofs are in the files imported below. *)
-From BE Require Import Model.Session Model.SessionTie Spec.SessionSpec Proofs.Kahn Proofs.Session Proofs.SessionExamples Proofs.SessionPassOut Proofs.Wire Proofs.SessionAdmission.
+From BE Require Import Model.Session Model.SessionTie Spec.SessionSpec Proofs.Kahn Proofs.Session Proofs.SessionExamples Model.Conform Proofs.SessionConform Proofs.SessionPassOut Proofs.Wire Proofs.SessionAdmission Proofs.SessionArrivals.
 From BE Require Import Gen.Skeleton Proofs.SkeletonPin.
 From Coq Require Import ZArith.
 Local Open Scope string_scope.
@@ -146,6 +146,49 @@ Theorem C20_seating_network :
     gshape n [MLog LOpen] 1 f).
 Proof. exact seating_phase. Qed.
 Print Assumptions C20_seating_network.
+
+(* and the whole session that follows: with conforming seated clients a run exists to a final state where every turned-away connection holds exactly [its error line; CLOSED], every late one was never answered, and the seated four played every board *)
+Theorem C20_whole_session_any_arrivals :
+  forall x : session,
+  let reqs := s_arrivals x in
+  let n := nconn x in
+  let nb := length (s_boards x) in
+  let T := seat_requests reqs empty_table in
+  s_boards x <> [] -> s_interrupt x = None -> wf_requests reqs -> all_seated T = true ->
+  conforming (s_boards x) (seated_scripts x) = true ->
+  exists l f, srun l (init_state x) = Some f /\ sfinal f /\
+    (* main has returned *)
+    pr f 0 = Some Ret /\
+    (* the log *)
+    (exists recs, log_events n f = LOpen :: map LRec recs ++ [LClose] /\
+                  map Some recs = recs_from (names_of T) (seated_scripts x) 0 (s_boards x)) /\
+    (* the four seated connections *)
+    (forall p, pr f (S (conn_map reqs p)) = Some Ret /\ pr f (S (n + conn_map reqs p)) = Some Ret /\
+               chan f (tr_down n (conn_map reqs p)) =
+               down_view (s_boards x) (names_of T North) (names_of T East) (seated_scripts x) p) /\
+    (* every request is seated (then it is the connection of its seat), turned away or too late *)
+    (forall j a, nth_error reqs j = Some a ->
+       (j < looked_at reqs empty_table ->
+        admission_error (table_before reqs j) (a_team a) (a_seat a) (a_version a) = None -> j = conn_map reqs (a_seat a)) /\
+       (forall e, j < looked_at reqs empty_table ->
+                  admission_error (table_before reqs j) (a_team a) (a_seat a) (a_version a) = Some e ->
+                  loc n f j = turned_view a e) /\
+       (looked_at reqs empty_table <= j -> loc n f j = waiting_view n nb j a (script_of x j))).
+Proof. exact conforming_session_any_arrivals. Qed.
+Print Assumptions C20_whole_session_any_arrivals.
+
+(* under EVERY schedule *)
+Theorem C20_whole_session_every_schedule :
+  forall x : session,
+  let reqs := s_arrivals x in
+  let T := seat_requests reqs empty_table in
+  s_boards x <> [] -> s_interrupt x = None -> wf_requests reqs -> all_seated T = true ->
+  conforming (s_boards x) (seated_scripts x) = true ->
+  exists f N, sfinal f /\ arrivals_outcome x f /\
+    forall l' s', srun l' (init_state x) = Some s' ->
+      length l' <= N /\ (sfinal s' -> s' = f /\ length l' = N).
+Proof. exact conforming_session_any_arrivals_every_schedule. Qed.
+Print Assumptions C20_whole_session_every_schedule.
 
 (* with the confluence theorem above all maximal runs end in one final state, a continuation of the state reached by that schedule (transcripts are append-only) *)
 Theorem C20_independent_of_timing_partial :
